@@ -275,4 +275,34 @@ macro_rules! with_kmer {
     }};
 }
 
+/// the same for functions with one more (inferred) type parameter
+#[macro_export]
+macro_rules! with_kmer_v {
+    ($k:expr, $f:ident ( $($args:expr),* )) => {{
+        use debruijn::kmer::*;
+        match $k {
+            2 => $f::<Kmer2, _>($($args),*),
+            3 => $f::<Kmer3, _>($($args),*),
+            4 => $f::<Kmer4, _>($($args),*),
+            5 => $f::<Kmer5, _>($($args),*),
+            6 => $f::<Kmer6, _>($($args),*),
+            8 => $f::<Kmer8, _>($($args),*),
+            10 => $f::<Kmer10, _>($($args),*),
+            12 => $f::<Kmer12, _>($($args),*),
+            14 => $f::<Kmer14, _>($($args),*),
+            15 => $f::<Kmer15, _>($($args),*),
+            16 => $f::<Kmer16, _>($($args),*),
+            20 => $f::<Kmer20, _>($($args),*),
+            24 => $f::<Kmer24, _>($($args),*),
+            30 => $f::<Kmer30, _>($($args),*),
+            31 => $f::<VarIntKmer<u64, K31>, _>($($args),*),
+            32 => $f::<Kmer32, _>($($args),*),
+            40 => $f::<Kmer40, _>($($args),*),
+            48 => $f::<Kmer48, _>($($args),*),
+            64 => $f::<Kmer64, _>($($args),*),
+            other => panic!("unsupported K {}", other),
+        }
+    }};
+}
+
 pub const ALL_K: [usize; 19] = [2, 3, 4, 5, 6, 8, 10, 12, 14, 15, 16, 20, 24, 30, 31, 32, 40, 48, 64];
